@@ -82,48 +82,77 @@ Qed.
 
 (* ---------- lookup part of _handle ---------- *)
 Section Lookup.
-  Variable T : str -> str.
+  Variable T : str -> option str.
   Variable FS : str -> str -> fsres.
-  Variable GD : str -> option str.
+  Variable GD : str -> gdres.
 
   (* a template is rendered: exactly one find_system call with (lookup_key, transformed value); on success
      exactly one get_data call with the id returned; the context has that id and that data, or neither *)
-  Theorem lookup_exact_served c r x v log p tc :
-    extract r = true -> raw_value x = Some v -> eqb_str (c_lookup_key c) SYSTEM_ID = false ->
+  Theorem lookup_exact_served c r x v tv log p tc :
+    extract r = true -> raw_value x = Some v -> T v = Some tv -> eqb_str (c_lookup_key c) SYSTEM_ID = false ->
     handle_plan T FS GD c r x = (log, PServe p (Some tc)) ->
-    match FS (c_lookup_key c) (T v) with
-    | FFound i => log = [CFind (c_lookup_key c) (T v); CGet i] /\ t_id tc = Some i /\ t_data tc = GD i
-    | FNone => log = [CFind (c_lookup_key c) (T v)] /\ c_continue c = true /\ t_id tc = None /\ t_data tc = None
-    | FRaise => log = [CFind (c_lookup_key c) (T v)] /\ c_continue c = true /\ c_ds_ignore c = true /\
+    match FS (c_lookup_key c) tv with
+    | FFound i => log = [CFind (c_lookup_key c) tv; CGet i] /\ t_id tc = Some i /\ t_data tc = gd_data (GD i) /\
+                  GD i <> GRaiseBase /\ (GD i = GRaise -> c_ds_ignore c = true)
+    | FNone => log = [CFind (c_lookup_key c) tv] /\ c_continue c = true /\ t_id tc = None /\ t_data tc = None
+    | FRaise => log = [CFind (c_lookup_key c) tv] /\ c_continue c = true /\ c_ds_ignore c = true /\
                 t_id tc = None /\ t_data tc = None
+    | FRaiseBase => False
     end.
   Proof.
-    intros He Hv Hk. unfold handle_plan, lookup. rewrite He, Hv, Hk.
-    destruct (FS (c_lookup_key c) (T v)) as [i| |]; cbn [andb negb];
+    intros He Hv Ht Hk. unfold handle_plan, lookup. rewrite He, Hv, Ht, Hk.
+    destruct (FS (c_lookup_key c) tv) as [i| | |]; cbn [andb negb];
       destruct (c_template c), (c_ds_ignore c), (c_continue c), (c_filemode c); cbn [app andb negb];
       try destruct (GD i); try destruct (extra_path x) as [e|]; try destruct (translate_path c e);
-      intros H; inversion H; subst; cbn; auto.
+      intros H; inversion H; subst; cbn; repeat split; auto; try discriminate.
   Qed.
 
   (* lookup_key = ":system_id:": no find_system call, the transformed value is the id *)
-  Theorem lookup_exact_system_id c r x v log p tc :
-    extract r = true -> raw_value x = Some v -> eqb_str (c_lookup_key c) SYSTEM_ID = true ->
+  Theorem lookup_exact_system_id c r x v tv log p tc :
+    extract r = true -> raw_value x = Some v -> T v = Some tv -> eqb_str (c_lookup_key c) SYSTEM_ID = true ->
     handle_plan T FS GD c r x = (log, PServe p (Some tc)) ->
-    log = [CGet (T v)] /\ t_id tc = Some (T v) /\ t_data tc = GD (T v).
+    log = [CGet tv] /\ t_id tc = Some tv /\ t_data tc = gd_data (GD tv) /\ GD tv <> GRaiseBase.
   Proof.
-    intros He Hv Hk. unfold handle_plan, lookup. rewrite He, Hv, Hk.
+    intros He Hv Ht Hk. unfold handle_plan, lookup. rewrite He, Hv, Ht, Hk.
     destruct (c_template c), (c_ds_ignore c), (c_continue c), (c_filemode c); cbn [app andb negb];
-      try destruct (GD (T v)); try destruct (extra_path x) as [e|]; try destruct (translate_path c e);
-      intros H; inversion H; subst; cbn; auto.
+      try destruct (GD tv); try destruct (extra_path x) as [e|]; try destruct (translate_path c e);
+      intros H; inversion H; subst; cbn; repeat split; auto; try discriminate.
   Qed.
 
   (* no system and lookup_no_result_action = not_found: not found, nothing rendered *)
-  Theorem lookup_failure_not_found c r x v :
-    extract r = true -> raw_value x = Some v -> eqb_str (c_lookup_key c) SYSTEM_ID = false ->
-    c_continue c = false -> FS (c_lookup_key c) (T v) = FNone ->
-    handle_plan T FS GD c r x = ([CFind (c_lookup_key c) (T v)], PNotFound).
+  Theorem lookup_failure_not_found c r x v tv :
+    extract r = true -> raw_value x = Some v -> T v = Some tv -> eqb_str (c_lookup_key c) SYSTEM_ID = false ->
+    c_continue c = false -> FS (c_lookup_key c) tv = FNone ->
+    handle_plan T FS GD c r x = ([CFind (c_lookup_key c) tv], PNotFound).
   Proof.
-    intros He Hv Hk Hc Hf. unfold handle_plan, lookup. rewrite He, Hv, Hk, Hf, Hc. reflexivity.
+    intros He Hv Ht Hk Hc Hf. unfold handle_plan, lookup. rewrite He, Hv, Ht, Hk, Hf, Hc. reflexivity.
+  Qed.
+
+  (* the transformation chain rejects the value: the exception is the result, the data source is not used *)
+  Theorem transform_raises_propagates c r x v :
+    extract r = true -> raw_value x = Some v -> T v = None ->
+    handle_plan T FS GD c r x = ([], PRaise).
+  Proof. intros He Hv Ht. unfold handle_plan, lookup. rewrite He, Hv, Ht. reflexivity. Qed.
+
+  (* an exception of the data source that is not derived from Exception is never swallowed, whatever
+     data_source_error_action says; one that is derived from Exception is handled according to the options,
+     whatever its class *)
+  Theorem base_exception_propagates c r x v tv :
+    extract r = true -> raw_value x = Some v -> T v = Some tv -> eqb_str (c_lookup_key c) SYSTEM_ID = false ->
+    FS (c_lookup_key c) tv = FRaiseBase ->
+    handle_plan T FS GD c r x = ([CFind (c_lookup_key c) tv], PRaise).
+  Proof.
+    intros He Hv Ht Hk Hf. unfold handle_plan, lookup. rewrite He, Hv, Ht, Hk, Hf. reflexivity.
+  Qed.
+
+  Theorem exception_ignored_continue c r x v tv :
+    extract r = true -> raw_value x = Some v -> T v = Some tv -> eqb_str (c_lookup_key c) SYSTEM_ID = false ->
+    FS (c_lookup_key c) tv = FRaise -> c_ds_ignore c = true -> c_continue c = true -> c_template c = true ->
+    exists plan, handle_plan T FS GD c r x = ([CFind (c_lookup_key c) tv], plan) /\
+      (plan = PNotFound \/ exists p, plan = PServe p (Some {| t_id := None; t_data := None |})).
+  Proof.
+    intros He Hv Ht Hk Hf Hi Hc Htm. unfold handle_plan, lookup. rewrite He, Hv, Ht, Hk, Hf, Hi, Hc, Htm.
+    cbn [andb negb]. destruct (if c_filemode c then _ else _) as [f|]; eexists; split; try reflexivity; eauto.
   Qed.
 
   (* without lookup_key the data source is not used and the context is {request_info} alone *)
